@@ -310,7 +310,13 @@ fn attach_spec(
         .insert(at, format!("\n    {}\n    ", spec.trim()), "contract:spec");
 }
 
+fn canary(sf: &SourceFile, rw: &mut Rewriter, block: &Block) {
+    let p = sf.off(block.brace_token.span.open().end());
+    rw.edits.insert(p, " assert(false); /* vx canary */ ".to_string(), "canary");
+}
+
 pub fn extract_item(sf: &SourceFile, it: &Value, cfg: &Config) -> std::result::Result<Value, XErr> {
+    let want_canary = it["canary"].as_bool().unwrap_or(false);
     let id = it["id"].as_str().unwrap_or("?");
     let path = it["select"].as_str().ok_or(("unsupported", "missing select".to_string()))?;
     let cur = resolve(sf, path)?;
@@ -373,6 +379,9 @@ pub fn extract_item(sf: &SourceFile, it: &Value, cfg: &Config) -> std::result::R
                                 "R-self:rename",
                             );
                         }
+                        if want_canary {
+                            canary(sf, &mut rw, &f.block);
+                        }
                         rw.visit_impl_item_fn(f);
                     }
                     ImplItem::Type(_) if it["drop_assoc_types"].as_bool().unwrap_or(false) => {
@@ -407,6 +416,9 @@ pub fn extract_item(sf: &SourceFile, it: &Value, cfg: &Config) -> std::result::R
                     "R-self:rename",
                 );
             }
+            if want_canary {
+                canary(sf, &mut rw, &f.block);
+            }
             rw.visit_item_fn(f);
         }
         Cur::ImplFn(f) => {
@@ -426,6 +438,9 @@ pub fn extract_item(sf: &SourceFile, it: &Value, cfg: &Config) -> std::result::R
             }
             if let Some(sr) = it["self_ref"].as_bool() {
                 rw.set_impl_self_ref(sr);
+            }
+            if want_canary {
+                canary(sf, &mut rw, &f.block);
             }
             rw.visit_impl_item_fn(f);
         }
@@ -580,7 +595,16 @@ pub fn extract_item(sf: &SourceFile, it: &Value, cfg: &Config) -> std::result::R
                 }
             }
         }
-        let head = format!("{}\n{{\n", w.trim());
+        let head = if want_canary {
+            format!("{}\n{{ assert(false); /* vx canary */\n", w.trim())
+        } else {
+            format!("{}\n{{\n", w.trim())
+        };
+        if fns_out.is_empty() {
+            if let Some(n) = it["wrap_name"].as_str() {
+                fns_out.push(n.to_string());
+            }
+        }
         pre_lines = head.matches('\n').count();
         text = format!("{}{}\n}}\n", head, text);
     }
